@@ -33,6 +33,7 @@ def ops_alphabet(n_items):
             ops.append(("insert", pos, nm))
         for idx in range(3):
             ops.append(("replace", idx, nm))
+        ops.append(("attr", nm))
     for idx in range(3):
         ops.append(("del_ix", idx))
         ops.append(("del_key", idx))
@@ -56,6 +57,11 @@ def apply_op(s, op):
         it = HeaderItem(op[2], value="v")
         k = s.keys()[op[1]]
         s[k] = it
+        return True, it
+    if kind == "attr":
+        # section.<NAME> = item : replaces the item of that session name, appends (and re-numbers) when there is none
+        it = HeaderItem(op[1], value="v")
+        setattr(s, it.mnemonic, it)
         return True, it
     if kind == "del_ix":
         if op[1] >= len(s):
@@ -138,7 +144,7 @@ def run_sequence(seq, tr):
             for it in list.__iter__(s):
                 if before_sessions.get(id(it), it.mnemonic) != it.mnemonic:
                     fails.append(("delete-leaves-names-alone", "%r -> %r" % (before_sessions[id(it)], it.mnemonic)))
-        fails += check_state(s, tr, ins if op[0] in ("append", "insert", "replace") else None)
+        fails += check_state(s, tr, ins if op[0] in ("append", "insert", "replace", "attr") else None)
         if fails:
             break
     return fails
@@ -199,7 +205,7 @@ def roundtrip_case(sec, names, case, version):
 
 def build_run(tier, seed):
     maxlen = 3 if tier == "quick" else 4
-    run = Run("C13", "every operation sequence over append/insert/replace/delete with names from %r, "
+    run = Run("C13", "every operation sequence over append/insert/replace/attribute-assignment/delete with names from %r, "
               "mnemonic_transforms on and off; a case is non-trivial when the section holds >= 2 items at some point; "
               "file round trips over name multisets of size <= 3 per section" % (NAMES,),
               "SectionItems operation sequences; LAS texts", "sequence length <= %d" % maxlen)
@@ -215,7 +221,7 @@ def build_run(tier, seed):
                 fails = run_sequence(seq, tr)
                 if fails is None:
                     continue
-                nappend = sum(1 for o in seq if o[0] in ("append", "insert"))
+                nappend = sum(1 for o in seq if o[0] in ("append", "insert", "attr"))
                 run.case((tr, seq), nontrivial=nappend >= 2, sample={"transforms": tr, "ops": seq} if (L == 3 and nappend >= 2) else None)
                 for clause, detail in fails[:1]:
                     run.fail(clause, klass_of(seq, tr, clause), {"kind": "seq", "transforms": tr, "ops": [list(o) for o in seq]}, detail)
